@@ -8,6 +8,7 @@ Protocol lines of the assembler / disassembler models (C07 / C08 / C09):
         b0 b1 b2 = the cells at pc, pc+1, pc+2 (addresses already wrapped by the harness)
   spc <dev> <pc> <hex(mnemonic)> <shape> <value>      → ok b0,b1,… | syntax | overflow | key      (Spec.Asm.encode)
   spa … (same)                                        → the absolute twin (Spec.Asm.encodeAbs)
+  spp <hex(text)>                                     → none | some <hex(MNEMONIC)> <shape> <hex(word)>  (Spec.Asm.parse)
 
 <dev> is 6502 | 65C02 | 65Org16; the parser is `AddressParser(maxwidth=ADDR_WIDTH, radix, labels)`.
 <labels> as in Driver/Num.lean.  Strings are hex-encoded byte-per-character.
@@ -38,6 +39,10 @@ def shapeOfStr (s : String) : Option Py65.Spec.Asm.Shape :=
   | "none" => some .none | "acc" => some .acc | "imm" => some .imm | "dir" => some .dir
   | "dirX" => some .dirX | "dirY" => some .dirY | "ind" => some .ind | "indX" => some .indX
   | "indY" => some .indY | _ => none
+
+def shapeStr : Py65.Spec.Asm.Shape → String
+  | .none => "none" | .acc => "acc" | .imm => "imm" | .dir => "dir" | .dirX => "dirX" | .dirY => "dirY"
+  | .ind => "ind" | .indX => "indX" | .indY => "indY"
 
 def outcomeStr : Py65.Spec.Asm.Outcome → String
   | .ok bs => "ok " ++ bytesStr bs
@@ -70,6 +75,10 @@ def runAsm (args : List String) : String :=
   | ["stm", h] =>
     match matchStatement (unhex h).toList with
     | some (a, b, c) => s!"some {hx a} {hx b} {hx c}"
+    | none => "none"
+  | ["spp", h] =>
+    match Py65.Spec.Asm.parse (unhex h).toList with
+    | some (m, sh, w) => s!"some {hx m} {shapeStr sh} {hx w}"
     | none => "none"
   | ["dis", dev, pc, ls, b0, b1, b2] =>
     match devByName dev with
